@@ -8,5 +8,5 @@ rsync -a --exclude target --exclude .git /repo/ "$D/repo/"
 (cd "$D/repo" && git init -q . && git apply --whitespace=nowarn "$P") || { echo "PATCH DOES NOT APPLY"; exit 3; }
 rc=0
 for c in "$@"; do
-  VERIF_REPO="$D/repo" VERIF_NO_EVIDENCE=1 /verif/check "$c" 2>&1 | grep -E "^(VIOLATION|HOLDS|KNOWN|C[0-9]+ |  [A-Z-]+ \[)" | sed "s#$D/repo/##g" | cut -c1-260 || true
+  VERIF_REPO="$D/repo" VERIF_CACHE="$D/cache" VERIF_NO_EVIDENCE=1 /verif/check "$c" 2>&1 | grep -E "^(VIOLATION|HOLDS|KNOWN|C[0-9]+ |  [A-Z-]+ \[)" | sed "s#$D/repo/##g" | cut -c1-260 || true
 done
